@@ -26,6 +26,10 @@ def main():
                 return mod.replay(chk, a.replay)
             return generic_replay(pid, a.replay)
         mod.run(chk)
+    except common.TieError as e:
+        # /repo builds, the harness does not: the correspondence no longer checks and nothing could be searched
+        chk.violation("the correspondence harness %s no longer compiles against /repo: the tie between the model and the code cannot be checked" % e.harness,
+                      {"kind": "tie", "correspondence": e.harness, "log_tail": str(e)[-3000:]}, found_input=False)
     except common.BuildError as e:
         print("BUILD-ERROR %s: %s" % (pid, str(e)[-4000:]))
         return 2
